@@ -10,6 +10,7 @@ LEVEL = "proof"
 COQ_FILES = ["Tie/C11_defs.v", "Tie/C11_tie.v", "Props/C11_props.v"]
 PROPS_FILES = ["C11_props.v"]
 TRUSTED_BASE = [
+    "vlib/symex.py (symbolic execution of the translated Python subset on the ast: the translator reads value / outcome trees, so local names, intermediates, helpers and the form of branches do not matter; its assumptions - pure expressions, opaque calls, no aliasing writes, try handlers not modelled - are listed in DESIGN.md 12.7; fail-closed)",
     "py2gallina unit 'ssl' (per-cell boolean expressions of MaskSplitter._gaussian_split / _uniform_split / _half_split: mask & ~acs, clearing of the protected region, input = mask & ~target, | acs; the count expressions handed to the fill routines; the Cython kernel's loop condition from the .pyx)",
     "fill routines as oracles with a contract: gaussian_fill returns need = count + 1 distinct cells inside the eligible set when it returns (C04 rejection-loop theorem), uniform_fill (rng.choice without replacement) returns exactly count distinct eligible cells; both validated by driving the real routines",
     "torch slicing `t[a:b, c:d] = False` marks the cells with a <= row < b and c <= col < d (non-negative bounds)",
